@@ -2,7 +2,10 @@ package main
 
 import (
 	"go/ast"
+	"go/parser"
 	"go/token"
+	"os"
+	"path/filepath"
 	"strconv"
 	"strings"
 )
@@ -15,6 +18,127 @@ func collect(repo string, f *facts) {
 	frameFacts(f)
 	routeFacts(f)
 	redactFacts(f)
+	serFacts(f)
+}
+
+// ---- C10: serializer ----
+func serFacts(f *facts) {
+	const file = "output/fluentdforward/eventserializer.go"
+	// length-class thresholds of raw field values: the `switch { case len(value) < A: …4 case len(value) < B: …16 default: …32 }`
+	f.note["ser_str_thresholds"] = "eventserializer.go encodeRecord: thresholds A, B of the first `case len(value) < A / < B` switch choosing EncodeString4/16/32"
+	f.nats["ser_str_thresholds"] = nil
+	f.note["ser_map_fix_below"] = "eventserializer.go encodeRecord: N of `len(fields)+1 < N` choosing the 1-byte map header"
+	f.nat["ser_map_fix_below"] = nil
+	f.note["ser_rewrite_len16_below"] = "eventserializer.go encodeRecord: N of `maxLength < N` choosing EncodeStringLen16 for rewritten fields (same in reservation and back-patch)"
+	f.nat["ser_rewrite_len16_below"] = nil
+	if fd := fn(file, "encodeRecord", "eventSerializer"); fd != nil {
+		var rw []int64
+		inspect(fd.Body, func(n ast.Node) bool {
+			sw, ok := n.(*ast.SwitchStmt)
+			if !ok || sw.Tag != nil {
+				return true
+			}
+			var ths []int64
+			kind := ""
+			for _, st := range sw.Body.List {
+				cc := st.(*ast.CaseClause)
+				if len(cc.List) != 1 {
+					continue
+				}
+				if v, ok := cmpLit(cc.List[0], "len(value)", token.LSS); ok {
+					ths = append(ths, v)
+					kind = "value"
+				}
+				if v, ok := cmpLit(cc.List[0], "len(fields)+1", token.LSS); ok && f.nat["ser_map_fix_below"] == nil {
+					f.nat["ser_map_fix_below"] = ip(v)
+				}
+				if v, ok := cmpLit(cc.List[0], "maxLength", token.LSS); ok {
+					rw = append(rw, v)
+				}
+			}
+			if kind == "value" && f.nats["ser_str_thresholds"] == nil {
+				f.nats["ser_str_thresholds"] = ths
+			}
+			return true
+		})
+		if len(rw) == 2 && rw[0] == rw[1] {
+			f.nat["ser_rewrite_len16_below"] = ip(rw[0])
+		}
+	}
+	f.note["ser_buffer_sized_from_record"] = "eventserializer.go SerializeRecord: grows packer.buffer when maxSerializedLength(record) exceeds it, before encodeRecord"
+	f.bool["ser_buffer_sized_from_record"] = nil
+	if fd := fn(file, "SerializeRecord", "eventSerializer"); fd != nil && len(fd.Body.List) > 0 {
+		ok := false
+		if is, isIf := fd.Body.List[0].(*ast.IfStmt); isIf && is.Init != nil {
+			ok = strings.Contains(src(is.Init), "packer.maxSerializedLength(record)") &&
+				strings.Contains(src(is.Cond), "> len(packer.buffer)") &&
+				strings.Contains(src(is.Body), "packer.buffer = make([]byte, maxLength)")
+		}
+		f.bool["ser_buffer_sized_from_record"] = bp(ok)
+	}
+	f.note["ser_unescape_rewriter_sets_flag"] = "runescape.go WriteFieldBody assigns record.Unescaped"
+	f.bool["ser_unescape_rewriter_sets_flag"] = nil
+	if fd := fn("rewrite/runescape/runescape.go", "WriteFieldBody", "unescapeRewriter"); fd != nil {
+		f.bool["ser_unescape_rewriter_sets_flag"] = bp(contains(fd.Body, func(n ast.Node) bool {
+			as, ok := n.(*ast.AssignStmt)
+			return ok && len(as.Lhs) == 1 && src(as.Lhs[0]) == "record.Unescaped"
+		}))
+	}
+	// msgpack codes as used by fastmsgpack (values from the vendored vmihailenco/msgpack codes package)
+	f.note["msgpack_codes"] = "github.com/vmihailenco/msgpack/v4/codes constants used by output/fastmsgpack"
+	f.prs["msgpack_codes"] = msgpackCodes([]string{"FixedArrayLow", "FixedMapLow", "FixedStrLow", "Str16", "Str32", "Map16", "FixExt8"})
+}
+
+func msgpackCodes(names []string) [][2]string {
+	// locate the module in the module cache via go.mod's version
+	gomod, err := os.ReadFile(filepath.Join(repoRoot, "go.mod"))
+	if err != nil {
+		return nil
+	}
+	ver := ""
+	for _, ln := range strings.Split(string(gomod), "\n") {
+		fs := strings.Fields(ln)
+		if len(fs) >= 2 && fs[0] == "github.com/vmihailenco/msgpack/v4" {
+			ver = fs[1]
+		}
+	}
+	home, _ := os.UserHomeDir()
+	gopath := os.Getenv("GOPATH")
+	if gopath == "" {
+		gopath = filepath.Join(home, "go")
+	}
+	path := filepath.Join(gopath, "pkg/mod/github.com/vmihailenco/msgpack/v4@"+ver, "codes/codes.go")
+	fileAst, err := parser.ParseFile(fset, path, nil, 0)
+	if err != nil {
+		return nil
+	}
+	vals := map[string]string{}
+	for _, d := range fileAst.Decls {
+		gd, ok := d.(*ast.GenDecl)
+		if !ok {
+			continue
+		}
+		for _, sp := range gd.Specs {
+			vs, ok := sp.(*ast.ValueSpec)
+			if !ok {
+				continue
+			}
+			for i, n := range vs.Names {
+				if i < len(vs.Values) {
+					if v, ok := evalInt("", vs.Values[i], 0); ok {
+						vals[n.Name] = strconv.FormatInt(v, 10)
+					}
+				}
+			}
+		}
+	}
+	var out [][2]string
+	for _, n := range names {
+		if v, ok := vals[n]; ok {
+			out = append(out, [2]string{n, v})
+		}
+	}
+	return out
 }
 
 // ---- C14: transform/tredactemail ----
